@@ -105,6 +105,16 @@ def _options_case(args):
     vals = [rng.choice(lv) for _ in range(3 * n)] + lv
     rng.shuffle(vals)
     df = pd.DataFrame({"v": vals, "y": range(len(vals))})
+    # how the column is stored must not matter once levels= is given: plain strings, an unordered
+    # categorical, or an ORDERED categorical whose own category order differs from levels=
+    storage = rng.choice(["str", "categorical", "ordered", "ordered"])
+    if storage == "categorical":
+        df["v"] = pd.Categorical(vals, categories=sorted(lv, reverse=True))
+    elif storage == "ordered":
+        own = sorted(lv)
+        if own == lv:
+            own = own[::-1]
+        df["v"] = pd.Categorical(vals, categories=own, ordered=True)
     ref = lv[pos - 1]
     spec = table[(n, pos)]
     spec_first = table[(n, 1)]
@@ -127,7 +137,7 @@ def _options_case(args):
         for icpt, key in ((True, red_key), (False, full_key)):
             text = "y ~ " + ("" if icpt else "0 + ") + call
             st, dm = design.build(text, df, extra_namespace={"LV": lv})
-            base = {"formula": text, "levels_arg": lv, "data": vals}
+            base = {"formula": text, "levels_arg": lv, "data": vals, "storage": storage}
             if st != "ok":
                 probs.append(({"clause": "exception_on_valid_coding_options", "exc": type(dm).__name__}, dict(base, error=str(dm)[:150])))
                 continue
